@@ -565,6 +565,13 @@ pub fn apply<H: HB>(q: &AnyQ<H>, unordered: bool, m: &Model, op: &Op, universe: 
         un = false;
     }
     let snap = c.snap();
+    if let Op::CloneSwap = op {
+        // a clone must have the arrangement of its source (it "behaves identically", ties included)
+        let before = q.snap();
+        if snap != before {
+            return Err(format!("a clone has a different internal arrangement than its source: {snap:?} vs {before:?}"));
+        }
+    }
     let chk = catch_unwind(AssertUnwindSafe(|| with_q!(&c, x => check_state(x, &snap, &mm, un, universe))));
     match chk {
         Ok(Ok(())) => {}
@@ -948,12 +955,6 @@ impl<'a, H: HB> Explorer<'a, H> {
                                     }
                                     Ok(ap) => {
                                         self.note_transition(op, double, m.len(), &ap, &mut local);
-                                        if let Op::CloneSwap = op {
-                                            if ap.snap != snap {
-                                                self.report(self.case(node, Some(op), None, format!("a clone has a different internal arrangement than its source: {:?} vs {:?}", ap.snap, snap)));
-                                                break;
-                                            }
-                                        }
                                         let key = encode_key(ap.q.double(), ap.unordered, &ap.snap);
                                         local.graph_fp = local.graph_fp.wrapping_add(hash64(&(&parent_key, op, format!("{:?}", ap.ret), &key)));
                                         if if keep_children || cfg.merge_check { insert(&key) } else { insert_fp(&key) } {
